@@ -27,6 +27,7 @@ def run(chk):
         "expiry runs before selection and deletes only entries whose recorded deadline is the one that fired; save() and load() agree on their keys."
     )
     chk.not_decided = "equality with an RFC 6265 reference store over histories; date parsing; path-match beyond the length/prefix structure."
+    chk.explanation += " After the defect hunt: side tables are keyed by the full cookie identity; parsed dates are compared with None; the Max-Age arithmetic cannot overflow."
     uc = repo.func(MOD, f"{CJ}.update_cookies")
     fc = repo.func(MOD, f"{CJ}.filter_cookies")
     # ---- accept -------------------------------------------------------------------------------------------
